@@ -57,7 +57,7 @@ func main() {
 	}
 	r := evidence.New("C12", "exploration")
 	r.Rule("phase pipe: case = (1-3 items, each a seeded directory tree (depth <= 5, empty dirs/files, long / non-ASCII / odd names, relative in-tree symlinks, assorted modes, sizes 0..2.5 MiB) or a single file, " +
-		"titles plain / nested / long / non-ASCII / unclean, option set over {TarReproducible, PreservePermissions, SkipUnpack, ForceCAS, IgnoreNoName}, intermediate in {none, memory, oci, remote}, umask in {022, 077, 027, 0}, second working directory empty or (1 in 3) already holding an earlier version of the items: same paths or a subset, other bytes, other file modes, other link targets, file<->symlink swaps, directories staying directories; built directly or by an earlier pipeline of another file store); " +
+		"titles plain / nested / long / non-ASCII / unclean, the path given to Add being the source itself or (1 in 4 single files, 1 in 12 directories) a relative / absolute / chained symbolic link to it, option set over {TarReproducible, PreservePermissions, SkipUnpack, ForceCAS, IgnoreNoName}, intermediate in {none, memory, oci, remote}, umask in {022, 077, 027, 0}, second working directory empty or (1 in 3) already holding an earlier version of the items: same paths or a subset, other bytes, other file modes, other link targets, file<->symlink swaps, directories staying directories; built directly or by an earlier pipeline of another file store); " +
 		"Add -> pack (root kind in {PackManifest v1.1, v1.0, deprecated Pack as artifact manifest, deprecated Pack as image manifest, hand-built Docker v2 manifest, OCI index over two such manifests with the layers split or shared}) -> Copy (-> Copy) into a second file store; restored trees compared with on-disk snapshots of the sources (paths, types, bytes, link targets, modes); " +
 		"phase repro: twin trees differing in timestamps, owners, creation order and hard links must give equal descriptors under TarReproducible; " +
 		"phase tamper: a directory blob with a wrong io.deis.oras.content.digest (or changed archive under the recorded digest) must be refused, the untampered one accepted and restored; " +
@@ -106,6 +106,8 @@ func main() {
 		{"items_dir_unpacked", int64(r.N(100, 2000))},
 		{"items_dir_skipunpack", int64(r.N(30, 600))},
 		{"files_crossing_1MiB", int64(r.N(10, 200))},
+		{"items_added_through_symlink_file", int64(r.N(30, 500))},
+		{"items_added_through_symlink_dir", int64(r.N(12, 250))},
 		{"prepopulated_items", int64(r.N(40, 800))},
 		{"prepopulated_files_with_other_mode_replaced", int64(r.N(100, 2000))},
 		{"prepopulated_type_swaps", int64(r.N(20, 400))},
@@ -168,6 +170,9 @@ type item struct {
 	MediaType string `json:"media_type,omitempty"`
 	Tree      *tree  `json:"tree"`
 	AddPath   string `json:"add_path"`
+	Link      string `json:"added_through_symlink,omitempty"` // the path given to Add is a symbolic link: rel, abs, chain-rel, chain-abs
+	LinkText  string `json:"symlink_text,omitempty"`
+	linkPath  string
 	Old       *tree  `json:"prepopulated_with,omitempty"` // earlier version found in the second working directory
 	PreHow    string `json:"prepopulated_how,omitempty"`  // "direct", "pipeline", "file"
 	oldSnap   map[string]node
@@ -301,6 +306,26 @@ func casePipe(res *worker.Result, rng *rand.Rand, root string, idx int, dupPhase
 			it.srcPath = filepath.Join(root, "else", fmt.Sprint(len(items)), asciiName(rng, 6))
 			it.AddPath = filepath.Join("..", "else", fmt.Sprint(len(items)), filepath.Base(it.srcPath))
 		}
+		if (t.Single && rng.IntN(4) == 0) || (!t.Single && rng.IntN(12) == 0) {
+			// the path handed to Add is a symbolic link (latest.bin -> release-1.bin) to the real source
+			it.Link = []string{"rel", "abs", "chain-rel", "chain-abs"}[rng.IntN(4)]
+			n := fmt.Sprint(len(items))
+			if it.AddPath == "" {
+				it.linkPath = it.srcPath // the link lives in the working directory under the item's name
+				if rng.IntN(2) == 0 {    // the real source next to it, or elsewhere
+					it.srcPath = filepath.Join(filepath.Dir(it.linkPath), "real-"+n+"-"+asciiName(rng, 5))
+				} else {
+					it.srcPath = filepath.Join(root, "else", n, "real-"+asciiName(rng, 5))
+				}
+			} else {
+				it.linkPath = filepath.Join(root, "links", n, asciiName(rng, 6))
+				if filepath.IsAbs(it.AddPath) {
+					it.AddPath = it.linkPath
+				} else {
+					it.AddPath = filepath.Join("..", "links", n, filepath.Base(it.linkPath))
+				}
+			}
+		}
 		items = append(items, it)
 		return it
 	}
@@ -320,6 +345,7 @@ func casePipe(res *worker.Result, rng *rand.Rand, root string, idx int, dupPhase
 			}
 			if rng.IntN(3) == 0 { // the very same source file under another name
 				it.dupOf = 0
+				it.Link, it.linkPath = "", ""
 				it.srcPath = first.srcPath
 				it.AddPath = first.srcPath
 			}
@@ -379,6 +405,14 @@ func casePipe(res *worker.Result, rng *rand.Rand, root string, idx int, dupPhase
 			return
 		}
 		it.src = snap
+		if it.Link != "" {
+			if err := makeLink(rng, root, it); err != nil {
+				res.Violate("harness:symlink", err.Error(), wit())
+				return
+			}
+			res.Count("items_added_through_symlink_"+kindOf(it), 1)
+			res.Observe("added_through_symlink_kinds", it.Link+"/"+kindOf(it))
+		}
 	}
 
 	syscall.Umask(umask)
@@ -422,6 +456,20 @@ func casePipe(res *worker.Result, rng *rand.Rand, root string, idx int, dupPhase
 				fail(d.Key, fmt.Sprintf("item %s: %s", q(it.Name), d.What))
 			}
 			return
+		}
+		if !it.Tree.Single && it.Link != "" {
+			// a directory handed to Add through a symbolic link: the archive must hold the directory
+			// (reported here, at the first place where it shows, under one key; later it surfaces as
+			// an unpack error or, with SkipUnpack, as an archive without the tree)
+			if b, err := content.FetchAll(ctx, fs1, d); err == nil {
+				if tb, err := gunzipAll(b); err == nil {
+					if asnap, _ := archiveSnapshot(tb, path.Clean(it.Name)); asnap != nil && asnap[""].Type != "dir" {
+						fail("dir-added-through-symlink:archive-root-is-"+asnap[""].Type, fmt.Sprintf("directory %s added through the symbolic link %s -> %s: the archive made by Add holds %d entries, its root entry is a %s (target %s), not the directory tree of %d entries",
+							q(it.Name), q(it.linkPath), q(it.LinkText), len(asnap), asnap[""].Type, q(asnap[""].Target), len(it.src)))
+						return
+					}
+				}
+			}
 		}
 	}
 	manifest, kind, err := packRoot(rng, fs1, layers)
@@ -713,6 +761,41 @@ func casePipe(res *worker.Result, rng *rand.Rand, root string, idx int, dupPhase
 		sm["manifest"] = mkind
 		res.Sample = sm
 	}
+}
+
+// makeLink creates the symbolic link (or chain of two) that is handed to Add
+// in place of the real source.
+func makeLink(rng *rand.Rand, root string, it *item) error {
+	text := func(from, to string) (string, error) {
+		if strings.HasSuffix(it.Link, "abs") {
+			return to, nil
+		}
+		return filepath.Rel(filepath.Dir(from), to)
+	}
+	if err := os.MkdirAll(filepath.Dir(it.linkPath), 0o755); err != nil {
+		return err
+	}
+	target := it.srcPath
+	if strings.HasPrefix(it.Link, "chain") {
+		mid := filepath.Join(root, "links", "mid-"+asciiName(rng, 8))
+		if err := os.MkdirAll(filepath.Dir(mid), 0o755); err != nil {
+			return err
+		}
+		t, err := text(mid, it.srcPath)
+		if err != nil {
+			return err
+		}
+		if err := os.Symlink(t, mid); err != nil {
+			return err
+		}
+		target = mid
+	}
+	t, err := text(it.linkPath, target)
+	if err != nil {
+		return err
+	}
+	it.LinkText = t
+	return os.Symlink(t, it.linkPath)
 }
 
 func kindOf(it *item) string {
